@@ -75,7 +75,8 @@ func (p *pktConnect) Pack() []byte {
 		payload = appendString(payload, p.Will.Topic)
 		payload = appendBytes(payload, p.Will.Payload)
 	}
-	if p.UserName != "" {
+	if p.UserName != "" || p.Password != "" {
+		// Password flag must not be set without user name flag. (MQTT-3.1.2-22)
 		flag |= byte(connectFlagUserName)
 		payload = appendString(payload, p.UserName)
 	}
